@@ -181,7 +181,32 @@ def rule_k9(ck, prog, S):
         t0, l0 = back(chain, K.arg(dup, ti)), back(chain, K.arg(dup, li))
         if t0 is None or t0.strip_all_casts().get("path") != infop:
             probs.append("the text duplicated for the queue is `%s`, not the text given" % K.arg(dup, ti).src)
-        if l0 is None or l0.strip_all_casts().get("path") != lenp:
+        def length_helper_ok(e):
+            """`h(info, info_len)` with a static h that returns its length parameter, or - only for a length of 0 - the
+            length of its text parameter up to the limit"""
+            e = e.strip_all_casts()
+            h = prog.fn(e.get("callee") or "") if e.k == "CallExpr" else None
+            if h is None or not h.static or C.loops(h):
+                return False
+            args_ = [x.strip_all_casts().get("path") for x in C.call_args(e)]
+            if infop not in args_ or lenp not in args_:
+                return False
+            hn = [q["name"] for q in h.params]
+            h_info, h_len = hn[args_.index(infop)], hn[args_.index(lenp)]
+            if [1 for _n, t_ in C.stores(h) if t_.get("path") in (h_info, h_len)]:
+                return False
+            rets = [r_ for r_ in h.nodes.values() if r_.k == "ReturnStmt" and r_.ch]
+            for r_ in rets:
+                v = r_.child(0).strip_all_casts()
+                if v.get("path") == h_len:
+                    continue
+                okc = v.k == "CallExpr" and v.get("callee") in ("strnlen", "BSD_strnlen", "strlen", "__builtin_strlen") and \
+                    C.call_args(v)[0].strip_all_casts().get("path") == h_info and \
+                    (len(C.call_args(v)) < 2 or (C.const_of(C.call_args(v)[1]) or 0) >= limit)
+                if not okc or not K.holds_rel(K.facts_at(S, h, r_) or [], h_len, "==", 0):
+                    return False
+            return bool(rets)
+        if l0 is None or (l0.strip_all_casts().get("path") != lenp and not length_helper_ok(l0)):
             probs.append("the length duplicated is `%s`, not the length given" % K.arg(dup, li).src)
     for n_, t in C.stores(f):
         if t.get("path") == infop:
